@@ -61,6 +61,18 @@ def one(ctx, kp, letter, alt, octave):
         r_.name = sharp
         return r_
     routes.append(('name setter', renamed))
+
+    def renamed_after_export():
+        # a pitch object that was already written under another name and octave, then moved here through the public setters: it is
+        # written as what it is now
+        other = 'D-' if not exp_obj[0].startswith('D') else 'E+'
+        r_ = kp.AgnosticPitch(other, octave + 1)
+        kp.HumdrumPitchExporter().export_pitch(r_)
+        r_.accidentals()
+        r_.name = sharp
+        r_.octave = octave
+        return r_
+    routes.append(('name and octave setters after an export', renamed_after_export))
     if 0 <= octave <= 9 and abs(alt) <= 2:
         routes.append(('AmericanPitchImporter', lambda: kp.AmericanPitchImporter().import_pitch(f'{sharp}{octave}')))
     for rname, make in routes:
